@@ -26,7 +26,7 @@ API_INV = ['WF', 'C11_Slice', 'C12_Slice', 'C12_OnePerMatch', 'C12_IncludeEmpty'
 
 ASSUME = ['the match list of an emitted pattern is what CPython re.finditer/fullmatch return for str(pattern) under MULTILINE|DOTALL '
           '(the harness computes it independently of the library call)',
-          'patterns come from a fixed catalogue of 32 DSL expressions; texts are all strings over {a, b, newline} up to the stated length '
+          'patterns come from a fixed catalogue of 39 DSL expressions; texts are all strings over {a, b, newline} up to the stated length '
           '(plus non-ASCII multi-line contents for file sources)',
           'histories are bounded as stated; each history is replayed on a rotating selection of patterns and texts',
           'split_by_capture is only judged when the captured spans are ordered and disjoint, replace only with plain replacement strings']
@@ -76,7 +76,8 @@ def run_stage(name, handles, groups, maxlen, tier, is_path, scratch, nonascii, p
     rterms = [RT.to_json(g.term(g.r.choice([1, 2, 2, 3]))) for _ in range(60 if tier == 'quick' else 400)]
     params = {'scratch': scratch, 'texts': texts_for(tier, nonascii), 'is_path': is_path, 'random_terms': rterms,
               'patterns_per_history': per_hist[0], 'texts_per_history': per_hist[1]}
-    farm = Farm('harness.judge_api.judge', params, seeds=(0,), mode='rr')
+    # every history runs under three hash seeds (a result may depend on set iteration order)
+    farm = Farm('harness.judge_api.judge', params, seeds=(0, 1, 2), mode='all')
 
     def consumer(fh):
         for b in split_states(fh, 40):
@@ -158,9 +159,12 @@ def api_check(prop, stages, tier_arg=None):
 
 def simple_stages(groups):
     def f(tier):
+        # the same observers on a file source (the statement of C11-C13 does not depend on where the text comes from)
         if tier == 'quick':
-            return [dict(name='cache-histories', handles=(1, 2), groups=groups, maxlen=3, is_path=False, nonascii=False, per_hist=(4, 5))]
-        return [dict(name='cache-histories', handles=(1, 2), groups=groups, maxlen=4, is_path=False, nonascii=False, per_hist=(8, 10))]
+            return [dict(name='cache-histories', handles=(1, 2), groups=groups, maxlen=3, is_path=False, nonascii=False, per_hist=(4, 5)),
+                    dict(name='cache-histories-file-source', handles=(1,), groups=groups, maxlen=2, is_path=True, nonascii=True, per_hist=(4, 3))]
+        return [dict(name='cache-histories', handles=(1, 2), groups=groups, maxlen=4, is_path=False, nonascii=False, per_hist=(8, 10)),
+                dict(name='cache-histories-file-source', handles=(1, 2), groups=groups, maxlen=3, is_path=True, nonascii=True, per_hist=(8, 6))]
     return f
 
 
